@@ -183,7 +183,9 @@ func (workerPoolSelf *DefaultWorkerPool) generateWorkerWithMaximum(maximum int) 
 	go func() {
 		// Recover & Recycle
 		defer func() {
+			jobPanicked := false
 			if panic := recover(); panic != nil {
+				jobPanicked = true
 				if handler := workerPoolSelf.panicHandler; handler != nil {
 					handler(panic)
 				}
@@ -195,6 +197,12 @@ func (workerPoolSelf *DefaultWorkerPool) generateWorkerWithMaximum(maximum int) 
 				workerPoolSelf.workerBusy--
 			}
 			workerPoolSelf.lock.Unlock()
+
+			if jobPanicked {
+				// This worker died from a job's panic: let the spawn loop replace it,
+				// otherwise already accepted jobs wait until somebody schedules again.
+				workerPoolSelf.notifyWorkers()
+			}
 		}()
 
 		// Do Jobs
